@@ -110,6 +110,13 @@ def roughen(text, rnd, rel=None):
         head2 += [f"from . import {sib} as _rel_sib", f"from .. import {par} as _rel_par"]
         tail += ["", "_rel_probe = (_rel_sib.__name__, _rel_par.__name__)"]
         forms.add("bare-dot-imports-of-two-levels")
+    if r() < 0.15:
+        # two plain imports, the later name a textual prefix of the earlier one (not a package / submodule pair)
+        longer, shorter = rnd.choice([("timeit", "time"), ("copyreg", "copy"), ("statistics", "stat"),
+                                       ("tokenize", "token"), ("selectors", "select"), ("sysconfig", "sys")])
+        head2 += [f"import {longer}", f"import {shorter}"]
+        tail += ["", f"_prefix_probe = ({longer}.__name__, {shorter}.__name__)"]
+        forms.add("plain-imports-one-name-prefix-of-the-other")
     for name, imp, code in special:
         if r() < 0.12 and not (name == "lambda-body" and "import-in-function" in forms):
             head2.append(imp)
@@ -294,7 +301,7 @@ def run_case(spec):
         paths.sort(key=lambda q: "bare-dot-imports-of-two-levels" not in rough[q][1])
         for path in paths[:3]:
             for f_ in rough[path][1]:
-                if f_.startswith("only-use-in-") or f_ == "bare-dot-imports-of-two-levels":
+                if f_.startswith("only-use-in-") or f_ in ("bare-dot-imports-of-two-levels", "plain-imports-one-name-prefix-of-the-other"):
                     res.ev("modules_with:" + f_)
             for action in rnd.sample(ACTIONS, 3):
                 prefs = {"split_imports": rnd.random() < 0.3, "pull_imports_to_top": rnd.random() < 0.7,
